@@ -26,7 +26,10 @@ t = ("\n### 10.5 Which check catches which seeded change\n\n"
      f"All {len(rows)} changes were confirmed in scratch copies (119 repository tests pass with the patch; the author's demo fails with "
      "it and passes without it) and then run against the checks with `VERIF_REPO=<patched copy>` (`tools/seed_ingest.py`; details in "
      "`seeded/<id>/meta.json`). Changes `-1`/`-2` are from the first round of sub-agents, `-3`/`-4` from a second round that was told "
-     "which ideas had been used and asked for harder ones. The column *missed at first* marks changes no check caught when they came "
+     "which ideas had been used and asked for harder ones, `-5`/`-6` from a third round that was given the ideas of both earlier rounds "
+     "and asked for changes that need long histories, boundary configurations, several instances alive at once, reconfiguration "
+     "at run time or unusual clock values. The *caught by* column is the result with the machinery as committed "
+     "(`tools/seed_recheck.py --update`; the result at ingest time is kept in each meta.json as `checks_at_ingest`). The column *missed at first* marks changes no check caught when they came "
      "in; each led to a stronger monitor (what was changed is in `seeded/missed_first.json` and in section 8):\n\n")
 for k, why in missed_first.items():
     t += f"* **{k}** — {why}\n"
